@@ -5,14 +5,70 @@ import (
 	"go/token"
 	"go/types"
 
+	"golang.org/x/tools/go/cfg"
+
 	"lachk/core"
 )
 
 func init() {
 	register("C02", "other", "T2 Dominates + T4 GuardedBy (mark before deliver, deliver once), T6 WhoMayCall, linear normaliser (frame bookkeeping)",
-		"Decides the structure behind 'each block delivers exactly the new ancestry, once': in the confirmation walk an event is handed to the application only on the edge where it is not yet marked confirmed, and only after it has been marked with the block's frame on the same path (the walk may visit an event twice); the mark is written nowhere else and the application's per-event callback is reachable only through that walk; the walk descends only into parents of delivered events (the filter may be a closure of confirmEvents, a closure that forwards to a module function, or a method bound to a struct built there whose fields are assigned nowhere else; parents may be pushed one by one or as a whole list, the push being recognised by what the callee does). Frame bookkeeping (per path, over the definitions that reach the Reset): on every path of onFrameDecided the frame persisted as last decided and the frame the election is reset to differ by exactly one (frame / frame+1, or FirstFrame-1 / FirstFrame when sealing), Bootstrap creates the election at last-decided+1, and the decided (frame, atropos) pair of the election result is what is applied. Roots (C02.roots): every frame slot of a root is written to the roots table in its own iteration of Store.AddRoot's slot loop, because a restarted node rebuilds the election from that table alone and a missing slot lets it decide a frame during Bootstrap, before the block callbacks exist (a block is swallowed, later blocks shift). Ancestry closure and 'the Atropos is a root of that frame' are graph facts and are not decided.",
+		"Decides the structure behind 'each block delivers exactly the new ancestry, once': in the confirmation walk an event is handed to the application only on the edge where it is not yet marked confirmed, and only after it has been marked with the block's frame on the same path (the walk may visit an event twice); the mark is written nowhere else and the application's per-event callback is reachable only through that walk; the walk descends only into parents of delivered events (the filter may be a closure of confirmEvents, a closure that forwards to a module function, or a method bound to a struct built there whose fields are assigned nowhere else; or a struct built there that is handed to a walk taking a one-method interface; parents may be pushed one by one or as a whole list, the push being recognised by what the callee does); every event the walk loads is offered to the filter before the next iteration, unless that very event id is in a local set of walked ids. Frame bookkeeping (decided on the inlined view of onFrameDecided, error values handed on by folded-in helpers followed) (per path, over the definitions that reach the Reset): on every path of onFrameDecided the frame persisted as last decided and the frame the election is reset to differ by exactly one (frame / frame+1, or FirstFrame-1 / FirstFrame when sealing), Bootstrap creates the election at last-decided+1, and the decided (frame, atropos) pair of the election result is what is applied. Roots (C02.roots): every frame slot of a root is written to the roots table in its own iteration of Store.AddRoot's slot loop, because a restarted node rebuilds the election from that table alone and a missing slot lets it decide a frame during Bootstrap, before the block callbacks exist (a block is swallowed, later blocks shift). Ancestry closure and 'the Atropos is a root of that frame' are graph facts and are not decided.",
 		[]string{"the event source returns the events that were processed", "application callbacks are opaque"},
 		runC02)
+}
+
+// c02ParamType: the type of parameter i of the function called at ws.
+func c02ParamType(f *core.FuncInfo, ws *core.CallSite, i int) types.Type {
+	sig, _ := f.Info().TypeOf(ws.Call.Fun).(*types.Signature)
+	if sig == nil || i >= sig.Params().Len() {
+		return nil
+	}
+	return sig.Params().At(i).Type()
+}
+
+// c02WalkedByID: the edges of g that say "this event id is in a local set": the comma-ok / value of a map
+// lookup whose key is the id handed to GetEvent (or event.ID() of the loaded event), tested true.
+func c02WalkedByID(g *core.FuncInfo, get *core.CallSite, event *types.Var) func(*cfg.Block, int) bool {
+	var id *types.Var
+	if len(get.Call.Args) == 1 {
+		id = canonVar(g, varOf(g, get.Call.Args[0]))
+	}
+	isID := func(k ast.Expr) bool {
+		if v := canonVar(g, varOf(g, k)); v != nil && v == id {
+			return true
+		}
+		return event != nil && c01MethodOn(g, k, "ID") == event
+	}
+	lookup := func(e ast.Expr) bool {
+		ix, ok := ast.Unparen(e).(*ast.IndexExpr)
+		if !ok {
+			return false
+		}
+		if _, isMap := g.Info().TypeOf(ix.X).Underlying().(*types.Map); !isMap {
+			return false
+		}
+		return isID(ix.Index)
+	}
+	return g.GuardEdges(func(ft core.Fact) bool {
+		e, truth, ok := c01BoolOperand(g.Info(), ft)
+		if !ok || !truth {
+			return false
+		}
+		if lookup(e) {
+			return true
+		}
+		v := varOf(g, e)
+		if v == nil {
+			return false
+		}
+		for _, a := range assignsToVar(g, v) {
+			as, isAs := a.Stmt.(*ast.AssignStmt)
+			if !isAs || len(as.Rhs) != 1 || !lookup(as.Rhs[0]) {
+				return false
+			}
+		}
+		return len(assignsToVar(g, v)) > 0
+	})
 }
 
 func runC02(c *core.Ctx) {
@@ -30,7 +86,7 @@ func runC02(c *core.Ctx) {
 		found := false
 		for _, ws := range f.CallsTo("abft.Orderer.dfsSubgraph") {
 			if len(ws.Call.Args) == 2 && !found {
-				flt, found = c02FilterOf(f, ws.Call.Args[1], frame, cb)
+				flt, found = c02FilterOf(f, ws.Call.Args[1], c02ParamType(f, ws, 1), frame, cb)
 			}
 		}
 		c.Need(found && flt.fn != nil, "confirmEvents passes a filter (closure or bound method) to dfsSubgraph")
@@ -90,8 +146,23 @@ func runC02(c *core.Ctx) {
 	c.Clause("C02.walk", func() {
 		anchor := c.Fn("abft.Orderer.dfsSubgraph")
 		f, filter := anchor, anchor.Param(1)
+		// a call of the filter: the function value itself, or the single method of an interface-typed filter
+		isFilterCall := func(g *core.FuncInfo, v *types.Var) func(cs *core.CallSite) bool {
+			return func(cs *core.CallSite) bool {
+				if v == nil {
+					return false
+				}
+				if cs.Callee == types.Object(v) {
+					return true
+				}
+				if _, isIface := v.Type().Underlying().(*types.Interface); isIface && cs.Recv() != nil {
+					return varOf(g, cs.Recv()) == v
+				}
+				return false
+			}
+		}
 		calledIn := func(g *core.FuncInfo, v *types.Var) bool {
-			return v != nil && len(g.CallsMatching(func(cs *core.CallSite) bool { return cs.Callee == types.Object(v) })) > 0
+			return v != nil && len(g.CallsMatching(isFilterCall(g, v))) > 0
 		}
 		if !calledIn(anchor, filter) {
 			// the step of the walk (load, filter, push the parents) may be a helper that is handed the filter
@@ -112,7 +183,7 @@ func runC02(c *core.Ctx) {
 				}
 			}
 		}
-		fc := f.CallsMatching(func(cs *core.CallSite) bool { return cs.Callee == types.Object(filter) })
+		fc := f.CallsMatching(isFilterCall(f, filter))
 		// pushes onto the stack of the walk: one element at a time or all elements of a list at once,
 		// classified by what the callee does (c02PushKind)
 		push := f.CallsMatching(func(cs *core.CallSite) bool {
@@ -151,6 +222,26 @@ func runC02(c *core.Ctx) {
 			get = append(get, f.CallsTo("abft.EventSource.GetEvent")...)
 		}
 		c.Check(len(get) == 1, "events are loaded from the event source", "provenance", f.Pos(), "input.GetEvent(walk)", "dfsSubgraph does not load events from the event source")
+		// every loaded event is offered to the filter: the filter is what marks and delivers, so an event
+		// that the walk drops for another reason is neither delivered by this block nor marked, and its
+		// ancestors are not walked. The only other acceptable reason to drop it is that this very event
+		// (by its id) was already walked.
+		for _, gs := range get {
+			g := gs.F
+			loop := c01LoopAround(g, gs.Call)
+			if g != f || loop == nil {
+				continue
+			}
+			head, _ := g.LoopOf(loop)
+			if head == nil {
+				continue
+			}
+			walked := c02WalkedByID(g, gs, filtered)
+			path, skip := core.PathQuery{F: g, From: gs.Pt, FromAfter: true, Avoid: core.PointSet(core.Points(fc)...), AvoidEdge: walked,
+				TargetBlock: func(b *cfg.Block) bool { return b == head }}.Find()
+			c.Check(!skip, "every loaded event is offered to the filter", "T3 PostDominates (per iteration)", gs.Pos(), "from GetEvent every path to the next iteration passes filter(event) (an error return apart)",
+				"the walk can drop a loaded event without offering it to the filter, for a reason other than that this event id was walked before ("+g.DescribePath(path)+"): the event is neither delivered nor marked by this block and its ancestors are not walked, so the block does not deliver exactly the new ancestry of its Atropos")
+		}
 	})
 
 	c.Clause("C02.who", func() {
@@ -168,7 +259,7 @@ func runC02(c *core.Ctx) {
 				if len(ws.Call.Args) != 2 {
 					continue
 				}
-				if flt, ok := c02FilterOf(ce, ws.Call.Args[1], ce.Param(0), ce.Param(2)); ok {
+				if flt, ok := c02FilterOf(ce, ws.Call.Args[1], c02ParamType(ce, ws, 1), ce.Param(0), ce.Param(2)); ok {
 					for _, g := range flt.own {
 						owner[g] = true
 					}
@@ -251,7 +342,7 @@ func runC02(c *core.Ctx) {
 			}
 		}
 		// applyAtropos receives them unchanged
-		od := c.Fn("abft.Orderer.onFrameDecided")
+		od := c02DecideView(c)
 		// (the callback field may be read into a local before the nil test and the call)
 		aa := c02FieldCalls(od, "abft.OrdererCallbacks.ApplyAtropos")
 		ok := len(aa) >= 1
